@@ -54,11 +54,23 @@ def requirements_met(order, D):
 _curve = {}
 
 
-def small_curve():
+def small_curve(with_tip=False):
+    """a fresh curve object; with_tip: the record already carries a "tip position" column (HDF5 / tab exports do)"""
     from vlib import synth
     if "c" not in _curve:
         _curve["c"] = synth.base_case(n_app=220, n_ret=200, noise=2e-3, noise_seed=3)
-    return synth.build(_curve["c"])
+    return synth.build(dict(_curve["c"], with_tip=bool(with_tip)))
+
+
+def acceptance(fn):
+    """(accepted by the order rule?, message) of one request"""
+    try:
+        fn()
+        return True, ""
+    except ValueError as exc:
+        return "requires the steps" not in str(exc), str(exc)
+    except KeyError as exc:
+        return False, str(exc)
 
 
 def check_selection(sel, ctx):
@@ -127,6 +139,14 @@ def check_selection(sel, ctx):
             msg = str(exc)
         ctx.check(got == expect, "apply-acceptance", dict(desc, expect=expect),
                   f"apply({sel}) accepted={got}, requirements met={expect} {msg}")
+        # the same rule through the curve object, on a record that ships its own tip position column, and when the
+        # request is made a second time on the same object
+        idt = small_curve(with_tip=True)
+        for attempt in (1, 2):
+            got, msg = acceptance(lambda: idt.apply_preprocessing(list(sel), options={}))
+            ctx.check(got == expect, "apply-acceptance", dict(desc, expect=expect, route="Indentation", attempt=attempt),
+                      f"Indentation.apply_preprocessing({sel}) on a curve with an innate tip position, attempt {attempt}: "
+                      f"accepted={got}, requirements met={expect} {msg}")
 
 
 def check_unknown(case, ctx):
@@ -146,6 +166,17 @@ def check_unknown(case, ctx):
     except ValueError as exc:
         ctx.check(not prefix_ok or "requires the steps" not in str(exc), "apply-unknown-wrong-error", {},
                   f"apply({ids}) raised ValueError {exc}")
+    # through the curve object, twice on the same object, by both entry points
+    for name, call in (("apply_preprocessing", lambda o: o.apply_preprocessing(list(ids))),
+                       ("fit_model", lambda o: o.fit_model(model_key="hertz_para", preprocessing=list(ids)))):
+        obj = small_curve(with_tip=bool(len(ids) % 2))
+        for attempt in (1, 2):
+            try:
+                call(obj)
+                ctx.fail("apply-accepts-unknown", {"route": name, "attempt": attempt},
+                         f"Indentation.{name}({ids}) was accepted at attempt {attempt} on the same object")
+            except (KeyError, ValueError):
+                pass
     for fn in (preproc.autosort, preproc.check_order):
         try:
             fn(list(ids))
